@@ -7,7 +7,7 @@
    20k lines of Python: it is established by the correspondence check (interleaved requests vs
    each request run alone, fingerprint of the cached document, requests issued afterwards). *)
 From Coq Require Import ZArith List String Bool Permutation.
-From TV Require Import Py.Prelude Model.Schema Model.ImplInput Model.ImplExec Model.Async Proofs.AsyncProofs.
+From TV Require Import Py.Prelude Model.Schema Model.ImplInput Model.ImplExec Model.Async Proofs.AsyncProofs Proofs.AsyncBridge.
 Import ListNotations.
 Open Scope list_scope.
 
@@ -42,6 +42,16 @@ Qed.
 
 End C15.
 
+(* each request program of the fan-out is the engine's executor for that request (its own document,
+   variables, operation, root value, configuration): the response a request has "when run alone" in
+   C15_isolation is the response of the state-passing executor C01-C03 are proved about *)
+Theorem C15_alone_is_the_executor sch doc vs U cfg op root :
+  response_of (fst (run_seq (resolver U) (a_execute_operation sch doc vs U cfg op root)))
+              (snd (run_seq (resolver U) (a_execute_operation sch doc vs U cfg op root))) =
+  execute_operation sch doc vs U cfg op root.
+Proof. exact (execute_operation_bridge sch doc vs U cfg op root). Qed.
+
+Print Assumptions C15_alone_is_the_executor.
 Print Assumptions C15_isolation.
 Print Assumptions C15_alone_any_schedule.
 Print Assumptions C15_events_are_the_union.
